@@ -111,7 +111,9 @@ Definition h_append (h : hnd) (F : bytes) (bs : bytes) : hnd * bytes * out :=
 Definition h_readat_ (h : hnd) (F : bytes) (n off : N) : out :=
   if h_offset h <? off then ORead [] true else
   let '(d, boff, ferr) :=
-    if off <? h_fo h then let '(d, e) := freadat F n off in (d, 0, e)
+    if off <? h_fo h then
+      (* fbs := bs[:min(len(bs), fileOffset-off)]: the file is never read beyond fileOffset *)
+      let '(d, e) := freadat F (N.min n (h_fo h - off)) off in (d, 0, e)
     else ([], off - h_fo h, false) in
   let pending := n - len d in
   if 0 <? pending then
@@ -208,14 +210,13 @@ Fixpoint s_state (s : sapp) (ops : list op) : sapp :=
 
 (* ---- where the code departs from the byte-array specification ----
    The file may hold bytes beyond fileOffset (after SetOffset below fileOffset — the file is never
-   truncated — or because it was preallocated).  readAt does not clamp the file read to fileOffset
-   and Open takes the file end as the size, so exactly these steps can observe the stale tail: *)
+   truncated — or because it was preallocated).  readAt clamps the file read to fileOffset, but
+   Open takes the file end as the size, so a reopen is the one step that observes the stale tail: *)
 Definition h_tail (h : hnd) (F : bytes) : bool := h_fo h <? len F.
 
 Definition s_risky (s : sapp) (o : op) : bool :=
   let h := s_h s in
   match o with
-  | ReadAt n off => negb (h_closed h) && h_tail h (s_file s) && (off <? h_fo h) && (h_fo h <? off + n)
   | Reopen _ => h_closed h && h_tail h (s_file s)
   | _ => false
   end.
